@@ -1,6 +1,7 @@
-(* Model of Action.change_signature AS IT WOULD BE after the proposed repair proposed_fixes/D75b.diff (NOT in /repo:
-   the model of the code that exists is Model.ChangeSignature; Corr.C18 uses this file only when Corr.C18Flag.d75b_patched
-   is set, for runs against a tree that carries the patch).
+(* Model of Action.change_signature as it is since /repo eb5fde6 (repair of the quantified-variable half of finding D75,
+   proposed_fixes/D75b.diff).  Model.ChangeSignature describes the same method without the step added by that commit
+   (and stays the object of the theorems: Proofs.C18_AlphaStep shows that the two agree on the fragment they cover).
+   Corr.C18 uses this file when Corr.C18Flag.d75b_patched is set (the registered state).
      UniversalPrecondition.change_signature / UniversalEffect.change_signature:
         free = {old: new for old, new in mapping.items() if old != quantified_parameter}
         if quantified_parameter in free.values():            # a renamed name would be captured by this quantifier
